@@ -9,7 +9,7 @@ matches the kind.  The simulator is checked against the extracted LEGALCARD."""
 import vcommon as V
 import sdcommon as S
 
-PROPFILE = "C12.py".replace(".py", ".v")
+PROPFILE = "C12.v"
 TYPE_OF = {"V1SC": "SD1", "V2SC": "SD2", "V2HC": "SDHC"}
 
 
